@@ -187,7 +187,20 @@ def write_release(sc, path):
             f.write(f"{r['mult']} {iso(r['t'])} {r['xf']!r} {r['yf']!r} {r['zf']!r} {r['id']} {r['id']}\n")
 
 
+class _Plug:
+    """how each recording plug-in is named in the configuration: absolute path with / without .py, path relative to the working
+    directory, or the name of a module on the python search path (LADiM accepts all four; the path forms take precedence)"""
+    def __init__(self, pattern, style):
+        self.pattern, self.style = pattern, style or {}
+
+    def __mod__(self, kind):
+        path = self.pattern % kind
+        st = self.style.get(kind, "abs.py")
+        return {"abs.py": path, "abs": path[:-3], "rel": os.path.relpath(path)[:-3], "name": "rec_" + kind}[st]
+
+
 def config(sc, work, plug=PLUG):
+    plug = _Plug(plug, sc.get("plugstyle"))
     iv = dict(farm="int", age="int")
     dv = dict(age=0)
     if sc["hasscal"]:
